@@ -343,12 +343,50 @@ def _numdens(ctx):
     if not fs:
         ctx.missing("R7", "GetNumDens", (rel, 0), "GetNumDens not found")
         return
-    body = re.sub(r"\s+", "", sk.plain(fs[0].body))
-    ok = "for(inti=0;i<NSPECIES;i++)numdens+=y[i];" in body and "returnnumdens;" in body and "doublenumdens=0.0;" in body
-    ctx.check(ok, "R7", "GetNumDens:species only", (rel, 0),
-              "the particle density in the temperature equation sums y[0..NSPECIES-1]" if ok else
-              "GetNumDens does not sum exactly the NSPECIES abundances: with a thermal process the temperature slot y[NSPECIES] enters the particle density",
-              expected="for (int i = 0; i < NSPECIES; i++) numdens += y[i];", found=body[:120])
+    # parsed as C statements: one accumulator starting at zero, one counting loop over [0, NSPECIES) adding y[i], returned
+    from .. import cstmt as CS
+    key = "GetNumDens:species only"
+    try:
+        tree_ = CS.parse_body(sk.plain(fs[0].body))
+    except CS.CStmtError as ex:
+        ctx.unrec("R7", key, (rel, 0), f"GetNumDens body does not parse: {ex}")
+        tree_ = None
+    if tree_ is not None:
+        stmts = [st for st, _ in CS.walk(tree_) if st[0] not in ("block",)]
+        loops = [st for st in stmts if st[0] == "for"]
+        rets = [st for st in stmts if st[0] == "return"]
+        n = CS.norm
+        verdict, found = None, re.sub(r"\s+", " ", sk.plain(fs[0].body))[:160]
+        if len(loops) != 1 or len(rets) != 1 or any(st[0] in ("if", "while", "dowhile", "try") for st in stmts):
+            verdict = "unrec"
+        else:
+            lp = loops[0]
+            mi = re.fullmatch(r"(?:int|size_t|unsignedint|unsigned)?([A-Za-z_]\w*)=(\w+)", n(lp[1]))
+            iv = mi.group(1) if mi else None
+            mc = re.fullmatch(r"([A-Za-z_]\w*)(<|<=|!=)(\w+)", n(lp[2])) if iv else None
+            step = iv is not None and n(lp[3]) in (f"{iv}++", f"++{iv}", f"{iv}+=1", f"{iv}={iv}+1")
+            body = [st for st, _ in CS.walk(lp[4]) if st[0] == "expr" and st[1]]
+            acc = n(rets[0][1])
+            ma = None
+            if len(body) == 1 and iv:
+                b = n(body[0][1])
+                ma = re.fullmatch(rf"{re.escape(acc)}\+=(.+)", b) or re.fullmatch(rf"{re.escape(acc)}={re.escape(acc)}\+(.+)", b) if re.fullmatch(r"[A-Za-z_]\w*", acc) else None
+            decl = [st for st in stmts if st[0] == "expr" and re.fullmatch(rf"(?:double|realtype|float){re.escape(acc)}=(.+)", n(st[1]))] if ma else []
+            if not (mi and mc and mc.group(1) == iv and step and ma and len(decl) == 1 and len([st for st in stmts if st[0] == "expr" and st[1]]) == 2):
+                verdict = "unrec"
+            else:
+                zero = re.fullmatch(r"0(\.0*)?[fF]?", re.fullmatch(rf"(?:double|realtype|float){re.escape(acc)}=(.+)", n(decl[0][1])).group(1)) is not None
+                bounds = mi.group(2) == "0" and mc.group(2) == "<" and mc.group(3) == "NSPECIES"
+                term = ma.group(1) in (f"y[{iv}]", f"(y[{iv}])")
+                verdict = "ok" if zero and bounds and term else "bad"
+        if verdict == "unrec":
+            ctx.unrec("R7", key, (rel, 0), f"GetNumDens is not one counting loop accumulating into the returned variable: {found}")
+        else:
+            ok = verdict == "ok"
+            ctx.check(ok, "R7", key, (rel, 0),
+                      "the particle density in the temperature equation sums y[0..NSPECIES-1]" if ok else
+                      "GetNumDens does not sum exactly the NSPECIES abundances: with a thermal process the temperature slot y[NSPECIES] enters the particle density",
+                      expected="for (int i = 0; i < NSPECIES; i++) numdens += y[i];", found=found)
     # npar is registered as GetNumDens(y)
     from ..ratemodel import model as ratemodel
     reg = ratemodel(ctx.tree).effective_registry("ThermalProcess")
@@ -395,25 +433,38 @@ def _r6(ctx):
     cfl = Flow(fn, "naunet/component.py")
     arg = ("param", fn.args.args[1].arg) if len(fn.args.args) > 1 else None
     PSE = ("cmp", ("In",), (arg, ("meth", ("global", "Species"), "known_pseudoelements", (), ())))
-    rets = [(simp(f.value), f.guards) for f in cfl.facts if f.kind == "return"]
+    def _paths(v, g):
+        """a returned conditional value is one return per arm"""
+        if v[0] in ("phi", "ifexp"):
+            return _paths(v[2], tuple(g) + ((v[1], True),)) + _paths(v[3], tuple(g) + ((v[1], False),))
+        return [(v, tuple(g))]
+    rets = [p_ for f in cfl.facts if f.kind == "return" for p_ in _paths(simp(f.value) if f.value else ("const", None), f.guards)]
     makes = [(v, g) for v, g in rets if v[0] == "call" and v[1] == ("global", "Species")]
+    if not makes:
+        ctx.unrec("R6", "Component._create_species:pseudo-filter", ("naunet/component.py", fn.lineno),
+                  "no path of _create_species returns Species(<name>) directly: where the species is constructed is not understood")
+        makes = None
     ok = bool(makes) and all(v[2] and v[2][0] == arg for v, g in makes) and all(not guards_satisfiable(g, [(PSE, True)]) for v, g in makes)
     # on a pseudo-element path (name is a non-empty str in the list) only None can be returned
     for v, g in rets:
         if guards_satisfiable(g, [(PSE, True), (arg, True), (("call", ("global", "isinstance"), (arg, ("global", "Species")), ()), False)]) and v != ("const", None):
             ok = False
-    ctx.check(ok, "R6", "Component._create_species:pseudo-filter", ("naunet/component.py", fn.lineno),
-              "Species(..) is constructed only for names not in Species.known_pseudoelements(); otherwise None is returned")
+    if makes is not None:
+        ctx.check(ok, "R6", "Component._create_species:pseudo-filter", ("naunet/component.py", fn.lineno),
+                  "Species(..) is constructed only for names not in Species.known_pseudoelements(); otherwise None is returned")
     # the list consulted is the CONFIGURED pseudo-element list whenever any list was configured
     kp = pkg.method("Species", "known_pseudoelements")
     ctx.saw("naunet/species.py", "Species.known_pseudoelements")
     kfl = Flow(kp, "naunet/species.py")
     CLS = ("param", "cls")
     KE, KP, DEF = ("attr", CLS, "_known_elements"), ("attr", CLS, "_known_pseudoelements"), ("attr", CLS, "default_pseudoelements")
-    rets = [(simp(f.value), tuple((simp(g), p) for g, p in f.guards)) for f in kfl.facts if f.kind == "return"]
+    rets = [(v, tuple((simp(g), p) for g, p in gs)) for f in kfl.facts if f.kind == "return"
+            for v, gs in _paths(simp(f.value) if f.value else ("const", None), f.guards)]
 
     # decide by truth table over (elements configured?, pseudo-elements configured?), whatever the spelling of the conditions
     def ev(c, env):
+        from ..valueflow import _unbool
+        c = _unbool(c)
         if c in env:
             return env[c]
         if c[0] == "unop" and c[1] == "Not":
@@ -651,6 +702,7 @@ MUTANTS = [
     {"name": "fex-by-index-swapped", "file": T, "old": 'fex = [f"{l} = {r};" for l, r in zip(lhs, rhs)]', "new": 'fex = [f"{rhs[i]} = {lhs[i]};" for i in range(len(rhs))]', "rules": ["R4"]},
     {"name": "loss-assign-plus-sign", "file": T, "old": 'rhs[specidx] += f" - {rate_sym}[{rl}]*{rsym_mul}"', "new": 'rhs[specidx] = rhs[specidx] + f" + {rate_sym}[{rl}]*{rsym_mul}"', "rules": ["R2"]},
     {"name": "has-thermal-heating-only", "file": T, "old": "has_thermal = True if netinfo.heating or netinfo.cooling else False", "new": "has_thermal = len(netinfo.heating) > 0", "rules": ["R1", "R4", "R7"]},
+    {"name": "numdens-includes-temperature", "file": 'naunet/templates/base/cpp/src/naunet_physics.cpp.j2', "old": '    double numdens = 0.0;\n\n    for (int i = 0; i < NSPECIES; i++) numdens += y[i];\n    return numdens;\n', "new": '    double numdens = 0.0;\n\n    for (int i = 0; i < NEQUATIONS; i++) numdens += y[i];\n    return numdens;\n', "rules": ["R7"]},
     {"name": "lhs-sorted", "file": T, "old": 'lhs = [f"ydot[IDX_{x.alias}]" for x in species]', "new": 'lhs = [f"ydot[IDX_{x.alias}]" for x in sorted(species)]', "rules": ["R4"]},
     {"name": "create-species-no-filter", "file": "naunet/reactions/reaction.py", "old": "[self._create_species(r) for r in reactants if self._create_species(r)]", "new": "[self._create_species(r) for r in reactants]", "rules": ["R6"]},
     {"name": "tgas-macro", "file": "naunet/templates/base/cpp/include/naunet_macros.h.j2", "old": "#define IDX_TGAS NSPECIES", "new": "#define IDX_TGAS NEQUATIONS", "rules": ["R4"]},
@@ -678,5 +730,6 @@ BENIGN = [
     {"name": "loss-assign-plus", "file": T, "old": 'rhs[specidx] += f" - {rate_sym}[{rl}]*{rsym_mul}"', "new": 'rhs[specidx] = rhs[specidx] + f" - {rate_sym}[{rl}]*{rsym_mul}"'},
     {"name": "has-thermal-by-length", "file": T, "old": "has_thermal = True if netinfo.heating or netinfo.cooling else False", "new": "has_thermal = len(netinfo.heating) + len(netinfo.cooling) > 0"},
     {"name": "n-eqns-int-flag", "file": T, "old": "n_eqns = max(n_spec + has_thermal, 1)", "new": "n_eqns = max(1, n_spec + int(has_thermal))"},
+    {"name": "numdens-braced-loop", "file": 'naunet/templates/base/cpp/src/naunet_physics.cpp.j2', "old": '    double numdens = 0.0;\n\n    for (int i = 0; i < NSPECIES; i++) numdens += y[i];\n    return numdens;\n', "new": '    double total = 0.;\n    for (int k = 0; k < NSPECIES; ++k) {\n        total = total + y[k];\n    }\n    return total;\n'},
     {"name": "template-reindent", "file": TEMPLATES["cvode"], "old": "    {% for eq in ode.fex -%}\n        {{ eq | stmwrap(80, 8) }}", "new": "    {% for eq in ode.fex -%}\n      {{ eq|stmwrap(80, 6) }}"},
 ]
